@@ -192,7 +192,19 @@ func (g *tgen) value() interface{} {
 		return gen.Word(r, 0, 4) + directiveLike[r.Intn(len(directiveLike))] + gen.Word(r, 0, 4)
 	}
 	if g.on("nonstring", 1, 5) {
-		switch r.Intn(6) {
+		switch r.Intn(11) {
+		case 6:
+			// decimal fractions that have no short binary form, in both float widths: the value is the number as the caller
+			// wrote it (19.99), not the digits of its binary neighbour
+			return float64(r.Range(-99999, 99999)) / 100
+		case 7:
+			return float32(r.Range(-9999, 9999)) / 100
+		case 8:
+			return []interface{}{float32(0.1), float32(2.6), float32(3.14), float64(0.7), float64(1) / 3, float32(1) / 3}[r.Intn(6)]
+		case 9:
+			return []interface{}{int8(-7), int16(-300), uint16(65535), uint32(4000000000), uint64(1) << 63, uint(77)}[r.Intn(6)]
+		case 10:
+			return r.Range(-50, 5000)
 		case 0:
 			return r.Range(-50, 5000)
 		case 1:
@@ -349,6 +361,11 @@ func (g *tgen) nodes(ctx string, depth, budget int, item map[string]interface{})
 			} else {
 				g.used["loop-if"] = true
 				nd.text = fmt.Sprintf("b%d_%d", depth, r.Intn(2))
+				if depth == 1 && g.feat["nested"] && r.Chance(1, 3) {
+					// the outer item carries a condition under the very name the items of its nested list use for theirs:
+					// inside the nested loop the item's own field decides
+					nd.text = fmt.Sprintf("b2_%d", r.Intn(2))
+				}
 				item["?"+nd.text] = true
 			}
 			nd.a = g.flat(ctx, depth, item)
